@@ -124,13 +124,19 @@ func checkB(c CaseB) *core.Violation {
 		panic("harness: " + err.Error())
 	}
 	defer os.RemoveAll(dir)
-	if c.H.Existed {
+	switch c.H.dbMode() {
+	case "existed":
 		os.MkdirAll(filepath.Join(dir, "data"), 0o755)
 		d0, err := db.DatabaseNew(tsx.DBPath(dir))
 		if err != nil {
 			panic("harness: " + err.Error())
 		}
 		pvx.CloseDB(d0)
+	case "golden":
+		if b, err := os.ReadFile(pvx.GoldenPath()); err == nil {
+			os.MkdirAll(filepath.Join(dir, "data"), 0o755)
+			os.WriteFile(tsx.DBPath(dir), b, 0o644)
+		}
 	}
 	cfg := childCfg{H: c.H, Dir: dir, StopAfter: -1}
 	if !c.During {
@@ -231,7 +237,7 @@ func checkB(c CaseB) *core.Violation {
 	}
 
 	// ---- reference: the same history, not killed, up to the acknowledged point (+ the in-flight operation)
-	ref, err := pvx.NewWorld("c10", c.H.Existed)
+	ref, _, err := pvx.NewWorldMode("c10", c.H.dbMode())
 	if err != nil {
 		panic("harness: " + err.Error())
 	}
@@ -344,7 +350,7 @@ func checkB(c CaseB) *core.Violation {
 func genB(t *rapid.T) CaseB {
 	var c CaseB
 	c.H.Agents = genAgents(t, 1, 4)
-	c.H.Existed = rapid.Bool().Draw(t, "existed")
+	c.H.DB = rapid.SampledFrom([]string{"fresh", "existed", "golden"}).Draw(t, "db")
 	nreg := rapid.IntRange(1, len(c.H.Agents)).Draw(t, "nreg")
 	for i := 0; i < nreg; i++ {
 		c.H.Ops = append(c.H.Ops, Op{K: "reg", A: i})
@@ -374,7 +380,7 @@ func classifyB(c CaseB) core.Class {
 		cl.Labels = append(cl.Labels, "between-operations")
 	}
 	cl.NonTrivial = o.inflight
-	cl.Fingerprint = fmt.Sprintf("inflight=%s|image=%s|existed=%v", o.kind, o.image, c.H.Existed)
+	cl.Fingerprint = fmt.Sprintf("inflight=%s|image=%s|db=%s", o.kind, o.image, c.H.dbMode())
 	return cl
 }
 
@@ -384,7 +390,7 @@ func TestC10b(t *testing.T) {
 	}
 	core.Run(t, core.Spec[CaseB]{
 		Property: "C10", Sub: "b",
-		Rule: "FAULT ENUMERATION by generated kill points: a child process applies a generated history (1-4 registrations + 1-14 operations as in (a), SMB/External listeners only) to a database on disk and reports BEGIN i / END i; it is SIGKILLed either while idle after END k or delay_us (0-20000) after BEGIN k; the actual progress is read from the report pipe. Oracle: differential against an unkilled reference run of the same history - every TS_Agents / TS_Links / TS_Listeners row equals its image after all acknowledged operations, except that rows touched by the single in-flight operation may be in their before- or after-image (the two wall-clock columns FirstCallIn/LastCallIn are not compared). Non-trivial: the kill landed inside an operation (BEGIN reported, END not; measured); distinct = (kind of the in-flight operation, before/after/mixed image observed, db new/existing)",
+		Rule: "FAULT ENUMERATION by generated kill points: a child process applies a generated history (1-4 registrations + 1-14 operations as in (a), SMB/External listeners only) to a database on disk and reports BEGIN i / END i; it is SIGKILLed either while idle after END k or delay_us (0-20000) after BEGIN k; the actual progress is read from the report pipe. Oracle: differential against an unkilled reference run of the same history - every TS_Agents / TS_Links / TS_Listeners row equals its image after all acknowledged operations, except that rows touched by the single in-flight operation may be in their before- or after-image (the two wall-clock columns FirstCallIn/LastCallIn are not compared). Non-trivial: the kill landed inside an operation (BEGIN reported, END not; measured); distinct = (kind of the in-flight operation, before/after/mixed image observed, db fresh/existed/golden)",
 		Gen:   genB, Check: checkB, Classify: classifyB,
 		Assumptions: []string{
 			"process kill only (SIGKILL); no power-loss / torn-page simulation",
